@@ -601,3 +601,51 @@ contract(Contract(
         ("        if self._config.force_exclude:\n", "        if True:\n", None, ["post[bypass_unless_forced"]),
     ],
 ))
+
+
+# --------------------------------------------------------------------------- FileResolverConfig.effective_exclude / _include
+TY = "flowmark.file_resolver.types"
+
+
+def cfg_setup(ex):
+    s = ex.envs[0]["self"]
+    s.fields["include"] = ex.mk("list[str]", "include")
+    s.fields["extend_include"] = ex.mk("list[str]", "extend_include")
+    s.fields["exclude"] = ex.mk("opt[list[str]]", "exclude") if False else None
+    from vfcore.values import VOpt
+    s.fields["exclude"] = VOpt(z3.Bool("exclude?none"), ex.mk("list[str]", "exclude"))
+    s.fields["extend_exclude"] = ex.mk("list[str]", "extend_exclude")
+
+
+def _eff_exclude(ex):
+    """the user's exclude list REPLACES the defaults whenever one is given -- also an empty one, which switches the default
+    exclusions off; extend_exclude is appended in either case"""
+    s = ex.old_envs[0]["self"].fields
+    res = ex.as_vlist(ex.envs[0]["result"], "str")
+    exc, ext = s["exclude"], s["extend_exclude"]
+    n_ext = ex.z(ext.length)
+    given = z3.Not(exc.is_none)
+    n_exc = ex.z(exc.val.length)
+    k = z3.Int("k!eff")
+    # given: result == exclude + extend_exclude (elementwise); not given: the tail is extend_exclude and the head has the
+    # length of the default list
+    from flowmark.file_resolver.defaults import DEFAULT_EXCLUDES
+    nd = len(DEFAULT_EXCLUDES)
+    head_len = z3.If(given, n_exc, nd)
+    return FAnd([FT(ex.z(res.length) == head_len + n_ext),
+                 FAll("k", 0, ex.wrap(n_ext, "int"), lambda c: FT(z3.Select(res.arr, head_len + c) == z3.Select(ext.arr, c)), "tail"),
+                 FAll("k", 0, ex.wrap(n_exc, "int"), lambda c: FT(z3.Implies(given, z3.Select(res.arr, c) == z3.Select(exc.val.arr, c))), "head")])
+
+
+from vfcore.values import FAll, FAnd, FT  # noqa: E402
+
+contract(Contract(
+    target=TY + ":FileResolverConfig.effective_exclude",
+    props=["C17", "C16"],
+    params={},
+    self_cls="FileResolverConfig",
+    setup=cfg_setup,
+    types={"base": "list[str]"},
+    ensures={"exclude_replaces_defaults_even_when_empty": Clause(_eff_exclude)},
+    canaries=[("self.exclude if self.exclude is not None else list(DEFAULT_EXCLUDES)", "self.exclude or list(DEFAULT_EXCLUDES)", None, ["post["])],
+))
